@@ -24,6 +24,50 @@ def claim_name(unique: int, mfr: int, inst_lo: int = 0, inst_hi: int = 0, functi
     return v
 
 
+def pick_name(rng, mfrs=(1851, 1855, 137, 229), hostile=True):
+    """A 64-bit NAME: well-formed with ordinary sub-field values, or with one or several sub-fields at their all-ones code
+    ('not available': instance 7 / 31, system instance 15, unique number 0x1FFFFF, function 255, class 127), or 64 random
+    bits (the manufacturer of those is kept to a known code so that manufacturer filters still have something to decide)."""
+    r = rng.random()
+    base = dict(unique=rng.randrange((1 << 21) - 3), mfr=rng.choice(list(mfrs)), inst_lo=rng.randrange(6), inst_hi=rng.randrange(30),
+                function=rng.choice([130, 140, 150, 160]), dev_class=rng.choice([25, 60, 75]), sys_inst=rng.randrange(14), industry=4, aac=rng.randrange(2))
+    if not hostile or r < 0.4:
+        return claim_name(**base)
+    if r < 0.75:
+        for k_ in rng.sample(["unique", "inst_lo", "inst_hi", "sys_inst", "function", "dev_class"], rng.randint(1, 3)):
+            base[k_] = {"unique": 0x1FFFFF, "inst_lo": 7, "inst_hi": 31, "sys_inst": 15, "function": 255, "dev_class": 127}[k_]
+        return claim_name(**base)
+    v = rng.getrandbits(64)
+    v = (v & ~(0x7FF << 21)) | ((base["mfr"] & 0x7FF) << 21)
+    # the code just below all-ones of a numeric sub-field is 'out of range' to the library (it refuses such a frame like any
+    # other out-of-range value): not what this generator is about
+    for off, bits in ((0, 21), (32, 3), (35, 5), (56, 4)):
+        if (v >> off) & ((1 << bits) - 1) == (1 << bits) - 2:
+            v ^= 1 << off
+    return v
+
+
+def related_addresses(src: int, dst: int = 255):
+    """Addresses other than `src` that look like it or like `dst` to careless code: decimal prefixes and extensions of
+    their spellings, +-1, the destination itself (when it is a unicast address)."""
+    out = []
+    for a in (src, dst):
+        s_ = str(a)
+        for k in range(1, len(s_)):
+            out.append(int(s_[:k]))
+        for dgt in (0, 5, 9):
+            out.append(a * 10 + dgt)
+        out += [a - 1, a + 1]
+    if dst < 254:
+        out.append(dst)
+    seen, res = set(), []
+    for a in out:
+        if 0 <= a <= 251 and a != src and a not in seen:
+            seen.add(a)
+            res.append(a)
+    return res
+
+
 class Pool:
     """Decodable message templates drawn from the database."""
 
